@@ -34,6 +34,15 @@ GSeqNext ==
   \/ \E pl \in plans : \/ (pl.kind = "deploy" /\ \E ok \in [Groups[pl.g] -> BOOLEAN] : CommitDeploy(pl, ok) /\ RT([a |-> "commit_deploy", id |-> pl.id, ok |-> ok]))
                        \/ (CommitTeardown(pl) /\ RT([a |-> "commit_teardown", id |-> pl.id]))
                        \/ \E ok \in BOOLEAN : (CommitMigrate(pl, ok) /\ RT([a |-> "commit_migrate", id |-> pl.id, ok |-> ok]))
+\* health-only transition coverage (C33): registration, heartbeats with every reported load, ageing, draining, sweeps; the harness
+\* runs these histories with a worker capacity of 2 pipelines, so a heartbeat reporting 2 is a SATURATED worker - which must not matter
+GHealthNext ==
+  \/ \E w \in W : \/ (~workers[w].reg /\ Register(w) /\ RT([a |-> "register", w |-> w]))
+                  \/ (Deregister(w) /\ RT([a |-> "deregister", w |-> w]))
+                  \/ (Age(w) /\ RT([a |-> "age", w |-> w]))
+                  \/ (SetDraining(w) /\ RT([a |-> "draining", w |-> w]))
+  \/ \E w \in W, n \in 0..2 : Heartbeat(w, n) /\ RT([a |-> "heartbeat", w |-> w, n |-> n])
+  \/ (Sweep /\ RT([a |-> "sweep"]))
 EmitAll == TRUE
 StateView == <<workers, groups, plans>>
 Emit == (Len(hist) = MaxLen) => PrintT(<<"CASE", ToJson([hist |-> hist])>>)
